@@ -104,6 +104,13 @@ class Facts:
         self._loops = None
         self._limit_check = None
         self._enum_members: Dict[str, List[str]] = {}
+        # cached-deadline attributes of the interpreter class (util.elapsed_compare accepts comparisons with them)
+        try:
+            from .util import derived_deadline_attrs
+
+            derived_deadline_attrs(self.t, self.vm_dispatcher()[0].cls)
+        except AnalysisError:
+            pass
 
     def cfg(self, f: Func) -> CFG:
         if id(f) not in self._cfgs:
